@@ -1103,6 +1103,16 @@ def exec_race(ctx, scn, chooser):
         if "stale" in scn["pre"].values():
             taken = [int(b) for b in tok2b.values() if b[:1].isdigit()]
             dead = getattr(ctx, "dead_pid", None)       # one dead pid serves many schedules (checked each time)
+            if dead is None:
+                # a number above kernel.pid_max names no process and never will (a reaped child's pid can come back
+                # within seconds on a busy machine, which changes the course of a schedule half-way through)
+                try:
+                    with open("/proc/sys/kernel/pid_max") as f:
+                        beyond = int(f.read()) + 4321
+                    if beyond < 2 ** 22 and e6.pid_is_dead(beyond):
+                        dead = ctx.dead_pid = beyond
+                except (OSError, ValueError):
+                    pass
             if dead is None or dead in taken or not e6.pid_is_dead(dead):
                 dead = ctx.dead_pid = lab.fresh_dead_pid(exclude=taken)
             tok2b["stale"] = b"%d\n" % dead
@@ -1289,6 +1299,8 @@ def exec_race(ctx, scn, chooser):
                 cnt("race_took_over_stale")
         if overlap:
             cnt("race_schedules_with_overlap")
+        if dead is not None and not e6.pid_is_dead(dead):
+            raise PidReuse("the stale pid %d answers kill(0) again" % dead)
         left = [n for n in lab.listing() if n not in FNAME.values()]
         if left:
             cnt("info_leftover_tempfiles", len(left))
@@ -1318,6 +1330,10 @@ def run_race(ctx, run, scn, chooser, how):
         res = exec_race(ctx, scn, chooser)
         if res["abort"] and res["abort"].startswith("pid-reuse"):
             run.info["pid_reuse_retries"] = run.info.get("pid_reuse_retries", 0) + 1
+            continue
+        if res["abort"] and "not deterministic" in res["abort"]:
+            # (a pid the scenario holds dead or alive changed sides for a moment?) - only a lasting difference counts
+            run.info["race_schedule_diverged_retries"] = run.info.get("race_schedule_diverged_retries", 0) + 1
             continue
         break
     sched = [y for _, y, _ in res["steps"]]
